@@ -333,6 +333,7 @@ def P11 (self : α) (holders : List α) (t : Nat) (e : Err α) (k : Class α) (r
     let K := culprits k
     (∃ cs, o.election = some cs ∧ ∀ c ∈ cs, c ∈ holders ∧ c ∉ K) ∧
     (∀ c ∈ o.readyTo, c ∉ K) ∧
+    (coordinates = false → ∀ c ∈ o.readyTo, some c = claimant) ∧   -- it answers nobody but the re-elected coordinator
     o.crun = o.start ∧
     (match o.start with | some S => ∀ c ∈ S, c ∉ K | none => True) ∧
     (coordinates = true → o.consumed ≤ arrivals.length ∧
